@@ -324,7 +324,9 @@ def check_explog_pow(ctx, ax, th, sc, a, b, q, R):
             ctx.le("log(I) = 0", np.abs(L).max(), 0.0, route=r)
         elif L is not None and th <= np.pi - 1e-4:
             ctx.le("log(R) is skew-symmetric", np.abs(L + L.T).max(), 1e-15 * max(1.0, 1 / (np.pi - th)), route=r)
-            rel_tol = 1e-12 + 4e-16 / th ** 2 + 4e-16 / (np.pi - th) ** 2
+            # (the logarithm takes its angle from atan2 of the skew part since the repair of the arccos form: accurate however small the angle;
+            #  only the neighbourhood of pi, where the skew part itself vanishes, is ill-conditioned)
+            rel_tol = 1e-12 + 4e-16 / (np.pi - th) ** 2
             ctx.le("|log R|_F = sqrt(2) theta", abs(np.linalg.norm(L) - np.sqrt(2) * th) / (np.sqrt(2) * th), rel_tol,
                    {"fro": float(np.linalg.norm(L)), "theta": th}, route=r)
             K = th * np.array([[0, -ax[2], ax[1]], [ax[2], 0, -ax[0]], [-ax[1], ax[0], 0]])
